@@ -40,7 +40,7 @@ def _groups(draw, items, tie_pct):
 
 
 @st.composite
-def instances(draw, sizes, na=None, two_sided=None, cls=None):
+def instances(draw, sizes, na=None, two_sided=None, cls=None, min_len=1):
     """A well-formed instance dict (see refmodel).  `cls` forces a case-mix class."""
     if cls is None:
         cls = draw(st.sampled_from(CLASSES))
@@ -48,7 +48,7 @@ def instances(draw, sizes, na=None, two_sided=None, cls=None):
         na = 2 if cls == 'two_agent' else (3 if cls in ('shared_tight', 'more_lecturers')
                                            else draw(st.sampled_from([3, 3, 2])))
     n1 = uni(draw, 1, sizes['n1'])
-    n2 = uni(draw, 1, sizes['n2'])
+    n2 = uni(draw, min(min_len, sizes['n2']), sizes['n2'])
     if cls == 'shared_tight':
         n2 = max(n2, 2)
         n1 = max(n1, 2)
@@ -70,7 +70,7 @@ def instances(draw, sizes, na=None, two_sided=None, cls=None):
     prefs = []
     for _ in range(n1):
         perm = draw(st.permutations(list(range(1, n2 + 1))))
-        k = uni(draw, 1, min(n2, sizes['lmax']))
+        k = uni(draw, min(min_len, n2, sizes['lmax']), min(n2, sizes['lmax']))
         prefs.append(_groups(draw, list(perm[:k]), t1))
     zero = cls == 'zero_capacity'
     lowq = cls == 'lower_quotas'
